@@ -20,4 +20,6 @@ def run(ctx, model_ok, deep=False):
     F.run_suites(ctx, model_ok, deep, [
         ("token-bytes", S.token_bytes, S.falsify_accept,
          "all strings of length 1-4 (quick) / 1-5 (thorough) over {e . = A - 0x80}; 12x10x8 header/payload/signature part grid; random strings over a token alphabet and over all bytes; random edits of real tokens; 1k-64k inputs; x checkers {no key, oct, RSA, P-256, Ed25519}; independent well-formedness predicate as falsifier", False),
+        ("token-bytes-gnutls", lambda w, p, t, r: S.token_bytes(w, p, t, r, provider="gnutls"), S.falsify_accept,
+         "the same strings under the GnuTLS provider (its own length and framing checks run ahead of the library calls)", False),
     ])
